@@ -496,7 +496,15 @@ static string opXFind(const vector<string> &f) {
     Obs o;
     try {
         fileseq::Status st;
-        fileseq::FileSequence s = fileseq::findSequenceOnDisk(root + "/" + dn + "/" + unhx(f[2]), styleOf(f[1]), &st);
+        // style "1c" / "4c": the pattern has no directory part and is looked up in the working directory
+        const bool cwdMode = f[1].size() > 1 && f[1][1] == 'c';
+        string pattern = root + "/" + dn + "/" + unhx(f[2]);
+        if (cwdMode) {
+            if (chdir((root + "/" + dn).c_str()) != 0) { removeTree(root); return "setup=err"; }
+            pattern = unhx(f[2]);
+        }
+        fileseq::FileSequence s = fileseq::findSequenceOnDisk(pattern, styleOf(f[1].substr(0, 1)), &st);
+        if (cwdMode) { if (chdir("/") != 0) { /* keep going */ } }
         if (!st) {
             o.add("err", "err");
         } else {
